@@ -684,10 +684,14 @@ func checkC16(c CaseC16) (*vkit.Failure, vkit.Meta) {
 func genNodes16(t *rapid.T, depth int, prefix string, inWorkflow bool) []Node16 {
 	n := rapid.IntRange(1, 4).Draw(t, "n")
 	var out []Node16
+	plain := rapid.IntRange(0, 5).Draw(t, "plainLevel") == 0 // a graph level made of option-less lambdas only
 	for i := 0; i < n; i++ {
 		kinds := []string{"A", "A", "B", "B", "N", "T", "T", "I"}
 		if depth > 0 {
 			kinds = append(kinds, "G", "G", "W")
+		}
+		if plain {
+			kinds = []string{"N"}
 		}
 		k := kinds[rapid.IntRange(0, len(kinds)-1).Draw(t, "kind")]
 		nd := Node16{Key: fmt.Sprintf("%s%d", strings.ToLower(k), i), Kind: k}
